@@ -1,6 +1,7 @@
 SPECIFICATION Spec
 CONSTANT MaxCmds = 2
 CONSTANT MaxLevel = 7
+CONSTANT Group = 1
 CONSTRAINT Bound
 VIEW View
 INVARIANT ExactlyOnce
